@@ -198,6 +198,18 @@ def generic_loader(model, rep):
     rep.instance("R4", construct, where, ok)
 
 
+class _NoHooks:
+    def call(self, sm, node, fname, args, kwargs, st):
+        if fname == "isinstance" and len(args) == 2:
+            from ..summ import BoolV, vkey
+            from ..guards import A
+            return BoolV(A(("ISA", vkey(args[0]), vkey(args[1]))))
+        if fname == "warn":
+            from ..summ import Sym
+            return Sym(("warn",))
+        return None
+
+
 def is_loopkey(node, key):
     return isinstance(node, ast.Name) and node.id == key
 
@@ -251,3 +263,46 @@ def linreg_loader(model, rep):
                 ok = False
                 rep.violation("R4", construct, where, "file default of '%s' is %r, constructor default %r" % (kw, fd, cd), "default %s %r" % (kw, fd))
     rep.instance("R4", construct, where, ok, "%d keywords" % len(kws))
+    # the deprecated iq key: like the constructor, a non-zero iq takes the place of ig (table key renamed), otherwise ig is used
+    from ..summ import Summarizer, Sym
+    from ..guards import Ctx, literals
+    sm = Summarizer(_NoHooks(), Ctx())
+    leaves = sm.summarize(fn, {a.arg: Sym(("name", a.arg)) for a in fn.args.args + fn.args.kwonlyargs})
+    ok = True
+    seen = set()
+    for lf in leaves:
+        if lf.kind != "return" or not isinstance(lf.value, Sym) or lf.value.key[0] != "call":
+            raise AnalysisError("LinReg.from_file: a path does not end in the constructor call")
+        kw = {k: v for k, v in [x for x in lf.value.key[2] if isinstance(x, tuple) and len(x) == 2 and isinstance(x[0], str)]}
+        igv = kw.get("ig")
+        lits = {}
+        for g in lf.guards:
+            literals(g, True, lits)
+        iqz = None
+        iqsym = None
+        for k, v in lits.items():
+            if k[0] in ("ZP", "Z") or k[0] == "EQ":
+                txt = repr(k)
+                if "'iq'" in txt:
+                    iqz = v
+        if iqz is None:
+            raise AnalysisError("LinReg.from_file does not branch on iq != 0")
+        seen.add(iqz)
+        from ..summ import show_value
+        s_ig = show_value(igv) if igv is not None else "nothing"
+        want_iq = "_get_opt(" in s_ig and "'iq'" in s_ig
+        want_ig = "_get_opt(" in s_ig and "'ig'" in s_ig and "'iq'" not in s_ig
+        if (iqz and not want_ig) or (not iqz and not want_iq):
+            ok = False
+            rep.violation("R4", construct, where, "with iq %s 0 the ground-current keyword is fed from %s" % ("==" if iqz else "!=", s_ig), "iq path ig<-%s when iq%s0" % (s_ig[:40], "==" if iqz else "!="))
+        if not iqz:
+            # a tabulated iq must be re-keyed to 'ig' as the constructor does
+            isd = [k for k, v in lits.items() if k[0] == "ISA" or "isinstance" in repr(k)]
+            rek = [e for e in lf.events if e[0] == "store" and e[1][0] == "sub" and e[1][2] == "ig"]
+            dict_path = any(v for k, v in lits.items() if "dict" in repr(k))
+            if dict_path and not rek:
+                ok = False
+                rep.violation("R4", construct, where, "a tabulated iq is not re-keyed to 'ig'", "iq table rekey")
+    if seen != {True, False}:
+        raise AnalysisError("LinReg.from_file: iq paths incomplete")
+    rep.instance("R4", construct + " deprecated iq key", where, ok, "%d paths" % len(leaves))
